@@ -102,7 +102,9 @@ func decodeWithContext(
 		return nil
 	}
 	// Convert the k/v pairs.
-	var b *logtags.Buffer
+	// The tags buffer of a withContext is never nil (see WithContextTags);
+	// a payload without tags yields an empty buffer.
+	b := &logtags.Buffer{}
 	for _, t := range m.Tags {
 		b = b.Add(t.Tag, t.Value)
 	}
